@@ -87,7 +87,10 @@ class Config:
                 tag = "T%d" % step
                 L.append("checkpoint 0 %s %s" % (tag, " ".join("%d:%s" % (p, paths[p]) for p in range(m))))
                 dev = dev0 if not self.cross else r.choice(["naive", "eigen", "naive2"])
-                L.append("restore %s %d %s %s %s" % (tag, nopts, k, dev, " ".join(str(nparams + p) for p in range(m))))
+                # half of the resumes register the fresh (valid, zero) model with the fresh optimizer
+                # before loading it — loaded statistics must replace the ones `add` created
+                devtok = dev + ("+addfirst" if r.random() < 0.5 else "")
+                L.append("restore %s %d %s %s %s" % (tag, nopts, k, devtok, " ".join(str(nparams + p) for p in range(m))))
                 copies.append((nopts, nparams, how_same if dev == dev0 else "near"))
                 # immediately after the restore (n = 0)
                 L.append("osame 0 %d" % nopts)
